@@ -7,6 +7,8 @@ mod env;
 mod c01;
 mod c12;
 mod c13;
+mod au;
+mod c04;
 
 use util::Ctx;
 
@@ -37,6 +39,7 @@ fn main() {
         ("gen", "C01") => c01::gen(&mut ctx),
         ("gen", "C12") => c12::gen(&mut ctx),
         ("gen", "C13") => c13::gen(&mut ctx),
+        ("gen", "C04") => c04::gen(&mut ctx),
         _ => { eprintln!("unknown command"); std::process::exit(2); }
     }
     ctx.finish(stats.as_deref());
